@@ -36,6 +36,25 @@ Second pass (neutral patches N9-N16):
     content; at an undecided test an arm after which every path raises is not the path of a result, so the other arm is taken (`run`);
     `with` bodies and the exception-free path of `try` are executed.
 
+Third pass (neutral patches N19 / N20; the defect behind N20 was a *soundness hole*: a store made through a construct the evaluator did not follow left
+the array at its old content, which was then compared):
+
+  * nothing that may write is ever skipped silently: a closure that cannot be applied poisons its arguments and every array it reaches through its
+    free names (`poison_closure`); `setattr` with a computed name, `vars(x).update(<unknown>)`, `exec / eval / locals()`, opaque library calls known
+    to write in place (`np.add.at`, `x.sort()`, `ufunc(..., out=x)` ...), stores through computed destinations (`tab[k][rows] = v`), `del`, statements the
+    evaluator does not execute (`match` with an undecided case, async / class bodies) and loops that cannot be enumerated whose variables may be views
+    of arrays named in the iterable all leave *unknown* content (ANALYSIS-ERROR at worst); `np.empty` content is unknown until a followed store fills it;
+    a lazy iterator nobody consumes (`map(...)` as a statement) is not executed;
+  * taught so that the result is silence: `*args / **kwargs` parameters of helpers and closures (the surplus keywords are a dict with identity);
+    closures share the defining scope (an array that gets its identity inside the closure keeps it outside); one array under several names
+    (`pc.Fe = Fe = np.exp(...)`, `x = y`) whatever the order of binding and filling; `x += y` in place on arrays / column views, `ufunc(a, b, out=x)`,
+    `X.T[i] = col`, `np.add.accumulate / np.cumsum(axis=1)` and `np.column_stack` on histories, `.reshape(-1, 1)`, index tuples held in a name
+    (`as_column = (slice(None), np.newaxis)`), `np.full_like`, `np.einsum` for the plain products, `itertools.pairwise`, `match` on values,
+    generator functions (`yield`) evaluated eagerly when they hold no reference to an array the consumer writes, `collections.namedtuple`
+    classes (fields by name and position, `_asdict`, `_replace`), row views unpacked from a uniform 2-D table;
+  * ModeEv: an *empty* selection (`Empty`: `X[sel]` with sel false, `np.arange(0)`, also module-level) selects nothing as a selector, has size 0
+    and is unknown as a value - so regimes kept as a dict of index vectors (`iel[rat >= c]`, `regimes.get("under", _NOROWS)`) are decided like masks.
+
 `ModeEv` evaluates mask-partitioned per-mode code (`get_su_coef`) for ONE generic mode of a given regime: every per-mode array is the scalar
 of that mode, a mask or index vector is the truth value "this mode is selected" (0 / 1), `X[sel]` is X or an empty selection, `X[sel] = v`
 stores or is a no-op, `np.any(sel)` is the truth value itself.  Arrays are boxes with identity, so a store through an alias (`for dest, row in
@@ -165,6 +184,13 @@ class DictV:
         return "DictV(%s)" % ", ".join(f"{k!r}: {v!r}" for k, v in self.d.items())
 
 
+class NamedV(DictV):
+    """an instance of a collections.namedtuple class: fields by name (a DictV) and, in field order, by position (unpacking, iteration, [k])"""
+
+    def __repr__(self):
+        return "NamedV(%s)" % ", ".join(f"{k}={v!r}" for k, v in self.d.items())
+
+
 # ---------------------------------------------------------------------------------------------------------------- history arrays
 class Hist:
     """2-D array: `nt` columns (samples), rows addressed in blocks by an evaluated row selector.  Unstored columns read as `fill` (np.zeros)
@@ -267,11 +293,21 @@ class Empty(Unknown):
         super().__init__(why)
 
 
+class Uninit(Unknown):
+    """ModeEv: the content of an array created by np.empty / np.empty_like that NO store has reached for the generic mode.  Every construct that may
+    write and is not followed replaces it by a plain Unknown (poison), so a value that is still `Uninit` when the array is published was provably
+    never assigned on the evaluated path: uninitialised memory - a definite defect, not a lowering gap"""
+
+
 class Box:
     """a per-mode array of ModeEv: a value with identity (aliases share it)"""
 
-    def __init__(self, v):
+    arr = False      # known to be an array (created by a constructor that returns one, or stored into through a subscript): `x += y` is in place
+
+    def __init__(self, v, arr=False):
         self.v = v
+        if arr:
+            self.arr = True
 
     def __repr__(self):
         return f"Box({self.v!r})"
@@ -328,6 +364,8 @@ class Ev01(AutoEvaluator):
         self.hists = []          # history arrays created by the evaluated code itself (np.zeros / np.empty with nt columns), shared with helpers
         self.fn = fn
         self._forced = {}        # id(If statement) -> truth taken because the other arm only leads to `raise`
+        self.yields = None       # values yielded so far when the evaluated function is a generator
+        self.yield_lost = False  # a `yield` sits in a region that was not executed / in a form that is not modelled
         self.skipped = []        # (statement, reason): regions with stores that were not executed (undecided test, loop that could not be enumerated)
 
     # ---- configuration inherited by the evaluator of an inlined helper
@@ -550,6 +588,8 @@ class Ev01(AutoEvaluator):
                     return (F.sym("<rows>"), F.const(len(b)))
                 if node.attr == "ndim":
                     return F.const(2)
+            if isinstance(b, NamedV) and node.attr == "_fields":
+                return tuple(mk_str(k_) for k_ in b.d)
             if isinstance(b, DictV):
                 if node.attr in b.d:
                     return b.d[node.attr]          # a namespace object (SimpleNamespace(**fields)) with identity
@@ -723,6 +763,19 @@ class Ev01(AutoEvaluator):
                 ast.fix_missing_locations(x)
                 out.append(self.evr(x))
             return out[0] if len(out) == 1 else tuple(out)
+        if fv.kind == "namedtuple":
+            if len(args) > len(fv.fields) or any(isinstance(a, ast.Starred) for a in args) or any(k.arg is None or k.arg not in fv.fields for k in kws):
+                return Unknown("call of a namedtuple class with arguments the evaluator cannot place")
+            vals = {}
+            for n_, a in zip(fv.fields, args):
+                vals[n_] = self.ref_of(a)
+            for k in kws:
+                if k.arg in vals:
+                    return Unknown("namedtuple field given twice")
+                vals[k.arg] = self.ref_of(k.value)
+            if set(vals) != set(fv.fields):
+                return Unknown("namedtuple field missing")
+            return NamedV({n_: vals[n_] for n_ in fv.fields})
         if fv.kind == "op" and len(args) == 2 and not kws:
             x = ast.copy_location(ast.BinOp(left=args[0], op=fv.op(), right=args[1]), node)
             ast.fix_missing_locations(x)
@@ -780,6 +833,16 @@ class Ev01(AutoEvaluator):
             elif not isinstance(f, (ast.Name, ast.Attribute)) or dotted(f) is None:
                 return NotImplemented
             return FuncV("partial", func=f, args=[self.evr(a) for a in args[1:]], kw={k.arg: self.evr(k.value) for k in kws if k.arg is not None})
+        if d in ("namedtuple", "collections.namedtuple") and len(args) == 2 and not kws:
+            fv = self.evr(args[1])
+            names = as_str(fv)
+            if names is not None:
+                names = names.replace(",", " ").split()
+            elif isinstance(fv, tuple) and all(as_str(x) is not None for x in fv):
+                names = [as_str(x) for x in fv]
+            if not names or not all(n_.isidentifier() for n_ in names) or len(set(names)) != len(names):
+                return NotImplemented
+            return FuncV("namedtuple", fields=list(names))
         if d in ("attrgetter", "operator.attrgetter", "itemgetter", "operator.itemgetter") and args and not kws:
             vals = [self.evr(a) for a in args]
             if d.endswith("attrgetter"):
@@ -865,6 +928,8 @@ class Ev01(AutoEvaluator):
             return None        # iterating a 2-D array walks its rows: not a history
         if isinstance(v, tuple):
             return list(v)
+        if isinstance(v, NamedV):
+            return list(v.d.values())
         if isinstance(v, DictV):
             return [self.key_value(k) for k in v.d]
         s = as_str(v)
@@ -1012,6 +1077,9 @@ class Ev01(AutoEvaluator):
                 return F.fn("idx", v, self._index_value(sl))
             except Unsupported as e:
                 return Unknown(str(e))
+        if isinstance(base, NamedV):
+            r = self.tuple_index(tuple(base.d.values()), sl) if isinstance(sl, (ast.Slice, ast.Constant, ast.UnaryOp, ast.Name)) else NotImplemented
+            return r if r is not NotImplemented else Unknown(f"subscript {ast.unparse(node)[:60]} of a namedtuple")
         if isinstance(base, DictV):
             kv = self.evr(sl)
             k = self.key_of(kv)
@@ -1255,6 +1323,8 @@ class Ev01(AutoEvaluator):
             return
         if isinstance(st, ast.For):
             items = self.iter_items(st.iter)
+            if items is None:
+                self.poison_loop_views(st)
             if items is None and not (self.loop_once or self.loop_unroll):
                 self.skip(st.body + st.orelse, f"stored inside a loop over `{ast.unparse(st.iter)[:60]}` that could not be enumerated")
             if items is not None and len(items) <= self.LIMIT:
@@ -1306,7 +1376,111 @@ class Ev01(AutoEvaluator):
                         self.env[nm] = Unknown("assigned inside a while loop that could not be unrolled")
                 self.skip(st.body, "stored inside a while loop that could not be unrolled")
             return
+        if isinstance(st, ast.Expr) and (isinstance(st.value, ast.GeneratorExp) or isinstance(st.value, ast.Call) and
+                                         dotted(st.value.func) in ("map", "filter", "zip", "starmap", "itertools.starmap", "iter", "reversed", "enumerate")):
+            return          # a lazy iterator that nobody consumes: Python runs none of it (the evaluator must not be more eager than the language)
+        if isinstance(st, ast.Expr) and isinstance(st.value, (ast.Yield, ast.YieldFrom)):
+            # the body of a generator function that is being evaluated eagerly (see inline_call): the yielded values in order
+            if self.yields is None:
+                return
+            if isinstance(st.value, ast.Yield):
+                self.yields.append(self.evr(st.value.value) if st.value.value is not None else NONE)
+            else:
+                items = self.iter_items(st.value.value)
+                if items is None:
+                    self.yield_lost = True
+                else:
+                    self.yields.extend(items)
+            return
+        if isinstance(st, ast.Match):
+            return self.match_stmt(st)
+        if isinstance(st, ast.Delete):
+            for t in st.targets:
+                d_ = dotted(t) if isinstance(t, (ast.Name, ast.Attribute)) else None
+                if d_ is not None and d_ not in self.pinned:
+                    self.env[d_] = Unknown(f"{d_} was deleted")
+                elif isinstance(t, ast.Subscript):
+                    self.poison_expr(t.value, f"`{ast.unparse(st)[:60]}`", st, whole=True)
+            return
+        if isinstance(st, (ast.AsyncFor, ast.AsyncWith, ast.ClassDef)) or type(st).__name__ in ("TryStar",):
+            # a compound statement the evaluator does not execute: what it assigns / stores into is not known afterwards
+            from .e2_eval import _assigned_names
+            why = f"assigned inside a {type(st).__name__} statement, which the evaluator does not execute"
+            for nm in _assigned_names(st):
+                if nm not in self.pinned:
+                    self.env[nm] = Unknown(why)
+            self.skip([st] if not isinstance(st, ast.ClassDef) else [], why)
+            return
         return super().stmt(st)
+
+    def pattern_match(self, pat, subj):
+        """does the (evaluated) subject match the pattern?  True / False / None; capture names are bound.  Literal, dotted-constant, singleton, wildcard,
+        capture and or-patterns are decided on values; sequence / mapping / class patterns are left open"""
+        if isinstance(pat, ast.MatchAs):
+            if pat.pattern is not None:
+                r = self.pattern_match(pat.pattern, subj)
+                if r is not True:
+                    return r
+            if pat.name is not None and pat.name not in self.pinned:
+                self.env[pat.name] = subj
+            return True
+        if isinstance(pat, ast.MatchOr):
+            rs = [self.pattern_match(p_, subj) for p_ in pat.patterns]
+            if any(r is True for r in rs):
+                return True
+            return False if all(r is False for r in rs) else None
+        if isinstance(pat, (ast.MatchValue, ast.MatchSingleton)):
+            val = pat.value if isinstance(pat, ast.MatchValue) else ast.Constant(value=pat.value)
+            test = ast.Compare(left=lit(subj), ops=[ast.Eq() if isinstance(pat, ast.MatchValue) else ast.Is()], comparators=[val])
+            ast.copy_location(test, pat)
+            ast.fix_missing_locations(test)
+            return self.decide(test)
+        return None
+
+    def match_stmt(self, st):
+        from .e2_eval import _assigned_names
+        subj = self.evr(st.subject)
+        for k_, case in enumerate(st.cases):
+            r = None if is_unknown(subj) else self.pattern_match(case.pattern, subj)
+            if r is True and case.guard is not None:
+                r = self.decide(case.guard)
+            if r is True:
+                self.run(case.body)
+                return
+            if r is None:
+                why = f"assigned under the undecided case `{ast.unparse(case.pattern)[:60]}` of a match statement"
+                rest = st.cases[k_:]
+                for c_ in rest:
+                    for b_ in c_.body:
+                        for nm in _assigned_names(b_):
+                            if nm not in self.pinned:
+                                self.env[nm] = Unknown(why)
+                    self.skip(list(c_.body), why)
+                return
+
+    def poison_loop_views(self, st):
+        """a loop that cannot be enumerated whose variables may be views of arrays named in the iterable (`for prev, cur in pairwise(d.T): cur[:] = ...`):
+        a store through a loop variable writes into those arrays"""
+        tg = {n.id for n in ast.walk(st.target) if isinstance(n, ast.Name)}
+        hit = False
+        for n in ast.walk(ast.Module(body=list(st.body), type_ignores=[])):
+            if isinstance(n, (ast.Subscript, ast.Attribute)) and isinstance(n.ctx, ast.Store):
+                r = n
+                while isinstance(r, (ast.Subscript, ast.Attribute)):
+                    r = r.value
+                hit = hit or (isinstance(r, ast.Name) and r.id in tg)
+            elif isinstance(n, ast.AugAssign) and isinstance(n.target, ast.Name) and n.target.id in tg:
+                hit = True
+            elif isinstance(n, ast.Call) and any(isinstance(a, ast.Name) and a.id in tg for a in list(n.args) + [k.value for k in n.keywords]):
+                hit = True
+        if not hit:
+            return
+        why = f"written through the variables of a loop over `{ast.unparse(st.iter)[:60]}` that could not be enumerated"
+        for n in ast.walk(st.iter):
+            if isinstance(n, (ast.Name, ast.Attribute)) and dotted(n) is not None:
+                v = self.env.get(dotted(n))
+                if has_ref(v) and not isinstance(v, FuncV):
+                    self.poison(v, None, why, st)
 
     def aug_in_place(self, st, ref):
         import copy
@@ -1335,6 +1509,8 @@ class Ev01(AutoEvaluator):
             n = work.pop()
             if isinstance(n, (ast.FunctionDef, ast.AsyncFunctionDef, ast.Lambda, ast.ClassDef)):
                 continue
+            if isinstance(n, (ast.Yield, ast.YieldFrom)):
+                self.yield_lost = True
             tg = []
             if isinstance(n, ast.Assign):
                 tg = list(n.targets)
@@ -1514,6 +1690,8 @@ class Ev01(AutoEvaluator):
             if isinstance(b, DictV):
                 b.d[target.attr] = v
                 return
+        if isinstance(target, (ast.Tuple, ast.List)) and isinstance(v, NamedV):
+            v = tuple(v.d.values())
         if isinstance(target, (ast.Tuple, ast.List)) and isinstance(v, tuple) and len(v) == len(target.elts):
             for t, x in zip(target.elts, v):
                 self._assign(t, x, st)
@@ -1560,7 +1738,20 @@ class Ev01(AutoEvaluator):
         orig = node
         node = self.normalise_call(node)
         if is_unknown(node):
-            self.poison_args(orig, f"passed to a call whose arguments could not be expanded: {node.why}"[:160])
+            why = f"passed to a call whose arguments could not be expanded: {node.why}"[:160]
+            self.poison_args(orig, why)
+            fv0 = self.callee_value(orig.func) if isinstance(orig.func, ast.Name) else None
+            if fv0 is not None and fv0.kind == "closure":
+                self.poison_closure(fv0, why)
+            self.inplace_unmodelled(dotted(orig.func), orig)
+            f_ = orig.func
+            if isinstance(f_, ast.Attribute) and f_.attr == "update":
+                if isinstance(f_.value, ast.Call) and dotted(f_.value.func) == "vars" and len(f_.value.args) == 1:
+                    self.poison_attrs(f_.value.args[0], why)
+                elif isinstance(f_.value, ast.Attribute) and f_.value.attr == "__dict__":
+                    self.poison_attrs(f_.value.value, why)
+                else:
+                    self.poison_expr(f_.value, why, orig, whole=True)
             return node
         # the callee as a value: a local closure / lambda, functools.partial, attrgetter(...)(x), operator.add -> applied here; a variable, a
         # conditional expression, a table lookup or a call that yields a function (helper, bound method, library function) -> called by its name
@@ -1612,6 +1803,7 @@ class Ev01(AutoEvaluator):
                 return r
             self.poison_args(node, f"passed to the helper {d} which could not be followed")
         self.unfollowed(d, node)
+        self.inplace_unmodelled(d, node)
         hook, inl = self.call_hook, self.inline
         self.call_hook, self.inline = None, None
         try:
@@ -1622,9 +1814,59 @@ class Ev01(AutoEvaluator):
     def unfollowed(self, d, node):
         """hook: a call that is neither modelled nor followed is about to be kept as an opaque application (ModeEv: see there)"""
 
+    def inplace_unmodelled(self, d, node):
+        """a library call / method the evaluator keeps opaque but that is known to write into one of its operands (np.put, np.add.at, x.fill, x.sort,
+        operator.setitem, setattr with a computed name, ufunc(..., out=x) ...): the operand is not known afterwards - never "unchanged" """
+        why = f"written in place by `{ast.unparse(node)[:60]}`, which the evaluator does not model"
+        for k in node.keywords:
+            if k.arg == "out" and not (isinstance(k.value, ast.Constant) and k.value.value is None):
+                self.poison_expr(k.value, why, node)
+        if d is not None and (d in self.INPLACE_FIRST or d.endswith(".at") and d.split(".")[0] in ("np", "numpy") or d in ("operator.setitem", "operator.delitem",
+                              "operator.iadd", "operator.imul", "operator.isub", "operator.itruediv", "np.random.shuffle")) and node.args:
+            self.poison_expr(node.args[0], why, node)
+        elif d in ("setattr", "delattr") and node.args:
+            self.poison_attrs(node.args[0], why)
+        elif d in ("exec", "eval", "locals", "globals") or (d == "vars" and not node.args):
+            # code the evaluator cannot see / the frame's name table handed out: every local array may be written
+            why = f"`{ast.unparse(node)[:40]}` can reach every local of the function"
+            for k_, v_ in list(self.env.items()):
+                if has_ref(v_) and not isinstance(v_, FuncV):
+                    self.poison(v_, None, why, node)
+                elif k_ not in self.pinned and isinstance(v_, F.Rat) and not k_.startswith("<") and (self.depth or k_ not in self._params()):
+                    self.env[k_] = Unknown(why)
+        elif isinstance(node.func, ast.Attribute) and (node.func.attr in ("fill", "sort", "put", "itemset", "resize", "partition", "byteswap", "setfield", "setflags")
+                                                       or node.func.attr.startswith("__set") or node.func.attr.startswith("__i")):
+            self.poison_expr(node.func.value, why, node, whole=True)
+
+    def _params(self):
+        a = getattr(self.fn, "args", None)
+        return {x.arg for x in (a.posonlyargs + a.args + a.kwonlyargs)} if a is not None else set()
+
+    def poison_attrs(self, obj, why):
+        """an object whose attributes were set through a construct the evaluator could not follow (setattr with a computed name, vars(x).update(unknown)):
+        none of its attributes is known afterwards"""
+        v = self.evr(obj) if isinstance(obj, (ast.Name, ast.Attribute)) else None
+        if isinstance(v, DictV):
+            self.poison(v, None, why, obj)
+        d_ = dotted(obj) if isinstance(obj, (ast.Name, ast.Attribute)) else None
+        if d_ is not None:
+            for k_ in list(self.env):
+                if k_.startswith(d_ + ".") and k_ not in self.pinned:
+                    self.env[k_] = Unknown(why)
+            self.env[f"<attrs of {d_} unknown>"] = Unknown(why)
+
     def builtin_call(self, d, node):
         args, kws = node.args, node.keywords
-        if d in ("partial", "functools.partial", "attrgetter", "operator.attrgetter", "itemgetter", "operator.itemgetter"):
+        if isinstance(node.func, ast.Attribute) and node.func.attr in ("_asdict", "_replace") and not args:
+            b = self.evr(node.func.value)
+            if isinstance(b, NamedV):
+                if node.func.attr == "_asdict" and not kws:
+                    return DictV(dict(b.d))
+                if node.func.attr == "_replace" and all(k.arg in b.d for k in kws):
+                    new_ = dict(b.d)
+                    new_.update({k.arg: self.ref_of(k.value) for k in kws})
+                    return NamedV(new_)
+        if d in ("partial", "functools.partial", "attrgetter", "operator.attrgetter", "itemgetter", "operator.itemgetter", "namedtuple", "collections.namedtuple"):
             r = self.make_callable(d, node)
             if r is not NotImplemented:
                 return r
@@ -1638,7 +1880,23 @@ class Ev01(AutoEvaluator):
             out = kws[0].value if kws else args[2]
             if isinstance(out, ast.Constant) and out.value is None:
                 return v
-            t = ast.copy_location(ast.Subscript(value=out, slice=ast.Slice(lower=None, upper=None, step=None), ctx=ast.Store()), node)
+            if isinstance(out, ast.Subscript):
+                t = ast.copy_location(ast.Subscript(value=out.value, slice=out.slice, ctx=ast.Store()), node)       # out=X[:, i]: written through that view
+            else:
+                t = ast.copy_location(ast.Subscript(value=out, slice=ast.Slice(lower=None, upper=None, step=None), ctx=ast.Store()), node)
+            self._assign(ast.fix_missing_locations(t), v, node)
+            return self.evr(out)
+        if d in self.funcs and (len(args) == 1 and [k.arg for k in kws] == ["out"] or len(args) == 2 and not kws) and d.split(".")[0] in ("np", "numpy"):
+            # np.exp(x, out=y): the elementwise function, written into y
+            call = ast.copy_location(ast.Call(func=node.func, args=[args[0]], keywords=[]), node)
+            v = self.evr(ast.fix_missing_locations(call))
+            out = kws[0].value if kws else args[1]
+            if isinstance(out, ast.Constant) and out.value is None:
+                return v
+            if isinstance(out, ast.Subscript):
+                t = ast.copy_location(ast.Subscript(value=out.value, slice=out.slice, ctx=ast.Store()), node)
+            else:
+                t = ast.copy_location(ast.Subscript(value=out, slice=ast.Slice(lower=None, upper=None, step=None), ctx=ast.Store()), node)
             self._assign(ast.fix_missing_locations(t), v, node)
             return self.evr(out)
         if isinstance(node.func, ast.Attribute) and node.func.attr == "reshape" and args and not kws:
@@ -1685,6 +1943,26 @@ class Ev01(AutoEvaluator):
                         out.append(self.call_with(fnode, [out[-1], x], node))
                 return IterV(out)
             return NotImplemented
+        if d in ("np.einsum", "numpy.einsum") and len(args) == 3 and not kws:
+            spec = as_str(self.evr(args[0]))
+            if spec is not None:
+                spec = spec.replace(" ", "")
+                ins, _, out = spec.partition("->")
+                ops = ins.split(",")
+                if len(ops) == 2 and all(o.isalpha() and len(set(o)) == len(o) for o in ops):
+                    a_, b_ = ops
+                    op = None
+                    if a_ and b_ and a_[-1] == b_[0] and not (set(a_[:-1]) & set(b_[1:])) and (out == a_[:-1] + b_[1:] or (not _ and sorted(a_[:-1] + b_[1:]) == list(a_[:-1] + b_[1:]))):
+                        op = ast.MatMult()          # 'ij,j->i', 'ij,jk->ik', 'i,i->': the matrix product
+                    elif a_ == b_ and out == a_:
+                        op = ast.Mult()             # 'i,i->i', 'ij,ij->ij': elementwise
+                    if op is not None:
+                        x = ast.copy_location(ast.BinOp(left=args[1], op=op, right=args[2]), node)
+                        return self.evr(ast.fix_missing_locations(x))
+            return NotImplemented
+        if d in ("pairwise", "itertools.pairwise") and len(args) == 1 and not kws:
+            items = self.iter_items(args[0])
+            return tuple((a_, b_) for a_, b_ in zip(items, items[1:])) if items is not None else NotImplemented
         if d == "iter" and len(args) == 1 and not kws:
             items = self.iter_items(args[0])
             return IterV(items) if items is not None else NotImplemented
@@ -1762,10 +2040,12 @@ class Ev01(AutoEvaluator):
                 else:
                     items = self.iter_items(args[0])
                     if items is None or not all(isinstance(it, tuple) and len(it) == 2 and as_str(it[0]) is not None for it in items):
+                        self.poison_attrs(obj, "set by vars(...).update(x) with an x the evaluator cannot enumerate")
                         return Unknown("vars(...).update(x) with an x the evaluator cannot enumerate")
                     pairs = [(as_str(k_), v_) for k_, v_ in items]
             pairs += [(k.arg, self.evr(k.value)) for k in kws if k.arg is not None]
-            if any(not isinstance(k_, str) or not k_.isidentifier() for k_, _ in pairs):
+            if any(k.arg is None for k in kws) or any(not isinstance(k_, str) or not k_.isidentifier() for k_, _ in pairs):
+                self.poison_attrs(obj, "set by vars(...).update with keys the evaluator cannot enumerate")
                 return Unknown("vars(...).update with a key that is not an attribute name")
             for k_, v_ in pairs:
                 self._assign(ast.copy_location(ast.Attribute(value=obj, attr=k_, ctx=ast.Store()), node), v_, node)
@@ -1821,7 +2101,7 @@ class Ev01(AutoEvaluator):
             if isinstance(b, tuple):
                 return F.const(len(b))
             if isinstance(b, DictV):
-                return F.const(len(b.d))
+                return F.const(len(b.d))          # (also a namedtuple: its number of fields)
             s = as_str(b)
             if s is not None:
                 return F.const(len(s))
@@ -1904,12 +2184,39 @@ class Ev01(AutoEvaluator):
         sub = self.spawn(fn, env)
         if scope is not None:
             sub.fn = self.fn         # module-level names are those of the enclosing function's module
+        from .e1_srcmodel import walk_no_nested as _wnn
+        is_gen = any(isinstance(n, (ast.Yield, ast.YieldFrom)) for n in _wnn(fn))
+        if is_gen:
+            # a generator function: its values are produced lazily, interleaved with the consumer.  Evaluating it eagerly is the same thing only when it
+            # holds no reference to an array the consumer may write between two steps: every argument must be a plain value (a snapshot)
+            used_ = {n.id for n in _wnn(fn) if isinstance(n, ast.Name)}
+            if any(has_ref(v) and not isinstance(v, FuncV) for k_, v in env.items() if k_ in used_) or \
+                    any(isinstance(n, ast.Attribute) and isinstance(n.ctx, ast.Store) for n in _wnn(fn)) or \
+                    any(isinstance(n, (ast.Yield, ast.YieldFrom)) and not isinstance(getattr(n, "_vparent", None), ast.Expr) for n in _wnn(fn) if hasattr(n, "_vparent")):
+                return NotImplemented
+            sub.yields = []
         try:
             sub.run(fn.body)
         except (_Continue, _Break):
             return Unknown(f"continue / break outside a loop in {name}")
         except RecursionError:
             return Unknown(f"recursion in {name}")
+        if scope is not None:
+            # a closure cannot rebind a free name (without `nonlocal`): whatever the evaluation changed under a free name stands for an effect on the
+            # object itself (the array got an identity through a store, or is not known any more) and belongs to the defining scope
+            bound = set(params) | set(kwonly) | ({a.vararg.arg} if a.vararg else set()) | ({a.kwarg.arg} if a.kwarg else set())
+            nonlocal_ = set()
+            for n_ in _wnn(fn):
+                if isinstance(n_, ast.Name) and isinstance(n_.ctx, ast.Store):
+                    bound.add(n_.id)
+                elif isinstance(n_, (ast.Nonlocal, ast.Global)):
+                    nonlocal_.update(n_.names)
+                elif isinstance(n_, (ast.FunctionDef, ast.ClassDef)) and n_ is not fn:
+                    bound.add(n_.name)
+            bound -= nonlocal_
+            for k_ in list(scope):
+                if k_ not in bound and k_ in sub.env and sub.env[k_] is not scope[k_] and k_ not in self.pinned:
+                    scope[k_] = sub.env[k_]
         if sub.raised is not None:
             self.raised = sub.raised
             self.done = True
@@ -1922,6 +2229,10 @@ class Ev01(AutoEvaluator):
             for k, v in sub.env.items():
                 if k.startswith("self.") and shared.get(k) is not v:
                     self.env[k] = v
+        if is_gen:
+            if sub.yield_lost or sub.raised is not None or any(is_unknown(x) and "could not be enumerated" in getattr(x, "why", "") for x in sub.yields):
+                return Unknown(f"the values yielded by the generator {name} could not be enumerated")
+            return IterV(sub.yields)
         if not sub.returns:
             return NONE
         v = sub.returns[0][0]
@@ -2005,8 +2316,8 @@ class ModeEv(Ev01):
                     scan(x, depth + 1)
         for v in self.env.values():
             scan(v)
-        if n[0] <= 1:
-            box.v = nv
+        if n[0] <= 1 or box.arr:
+            box.v = nv          # one name only, or certainly an array: in place
             return
         box.v = Unknown(f"a value bound to several names was updated in place through `{ast.unparse(st)[:60]}`")
         if isinstance(st.target, ast.Name) and st.target.id not in self.pinned:
@@ -2096,6 +2407,20 @@ class ModeEv(Ev01):
             return base
         return base if s else Empty()
 
+    def _assign(self, target, v, st, aug=False):
+        if isinstance(target, (ast.Tuple, ast.List)) and isinstance(v, (F.Rat, Box)) and not any(isinstance(e, ast.Starred) for e in target.elts) \
+                and all(isinstance(e, ast.Name) for e in target.elts) and isinstance(st, ast.Assign) and target in st.targets:
+            # `F, G, A, ... = table` with `table = np.zeros((8, n))` / np.ones / np.full: the rows of a 2-D table whose entries are all the same - each
+            # row is an array of its own (a view: the table itself is not followed any further)
+            pv = self.plain(v)
+            if isinstance(pv, F.Rat) and pv.is_const():
+                for e in target.elts:
+                    super()._assign(e, Box(pv), st)
+                if isinstance(st.value, ast.Name) and st.value.id not in self.pinned:
+                    self.env[st.value.id] = Unknown(f"the rows of {st.value.id} were handed out as views")
+                return
+        return super()._assign(target, v, st, aug)
+
     def scalar_store(self, target, base_unused, v, st, aug):
         try:
             s = self.selector(target.slice)
@@ -2115,6 +2440,7 @@ class ModeEv(Ev01):
                 return
         v = self.plain(v)
         self.sel_stores.append((box, s, v, st))
+        box.arr = True
         if s is None or s:
             box.v = v
 
@@ -2158,10 +2484,18 @@ class ModeEv(Ev01):
 
     def builtin_call(self, d, node):
         args = node.args
-        if d in ("np.place", "np.putmask", "np.put") and len(args) == 3 and not node.keywords:
+        if d in ("np.place", "np.putmask", "np.put", "operator.setitem") and len(args) == 3 and not node.keywords:
             return self.masked_store(args[0], args[1], args[2], node)
+        if isinstance(node.func, ast.Attribute) and node.func.attr == "__setitem__" and len(args) == 2 and not node.keywords:
+            return self.masked_store(node.func.value, args[0], args[1], node)
         if d == "np.copyto" and len(args) == 2 and [k.arg for k in node.keywords] == ["where"]:
             return self.masked_store(args[0], node.keywords[0].value, args[1], node)
+        full = ast.Slice(lower=None, upper=None, step=None)
+        if d == "np.copyto" and len(args) == 2 and not node.keywords:
+            return self.masked_store(args[0], full, args[1], node)          # the whole array is overwritten
+        if isinstance(node.func, ast.Attribute) and node.func.attr == "fill" and len(args) == 1 and not node.keywords \
+                and isinstance(node.func.value, (ast.Name, ast.Subscript, ast.Attribute)):
+            return self.masked_store(node.func.value, full, args[0], node)
         if d in ("np.any", "any", "np.count_nonzero", "np.size") and len(args) == 1:
             v = self.ev(args[0])
             return F.const(0) if isinstance(v, Empty) else v
@@ -2223,7 +2557,7 @@ class ModeEv(Ev01):
             return F.const(0)
         if d in ("np.empty", "np.empty_like"):
             # an array with identity from its creation (helpers that receive it fill *this* object); its content is whatever followed stores put there
-            return Box(Unknown(f"content of an array created by {d} that no followed store has filled for the generic mode"))
+            return Box(Uninit(f"content of an array created by {d} that no store has filled for the generic mode"), arr=True)
         if d in ("np.ones", "np.ones_like"):
             return F.const(1)
         if d in ("np.full", "np.full_like") and len(args) >= 2:
